@@ -648,3 +648,166 @@ func dumpClaim(cl claim) map[string]any {
 }
 
 var _ = time.Second
+
+// ---------------------------------------------------------------------------
+// DualProofV2 (used by document verification): only defined between transactions that link to their predecessor
+
+const kV2Same = "K01g-dualproofv2-same-id-unbound"
+
+func cloneDualV2(p *store.DualProofV2) *store.DualProofV2 {
+	return &store.DualProofV2{SourceTxHeader: cloneHdr(p.SourceTxHeader), TargetTxHeader: cloneHdr(p.TargetTxHeader),
+		InclusionProof: cloneTerms(p.InclusionProof), ConsistencyProof: cloneTerms(p.ConsistencyProof)}
+}
+
+func noLagIDs(h *hist) []uint64 {
+	var ids []uint64
+	for _, r := range h.txs {
+		if r.hdr.BlTxID == r.id-1 {
+			ids = append(ids, r.id)
+		}
+	}
+	return ids
+}
+
+func checkSoundV2(rt *rapid.T, c *vk.Case, w *world, claims int) {
+	H, F := w.H, w.F
+	idsH := noLagIDs(H)
+	if len(idsH) == 0 {
+		return
+	}
+	mc := &mutCtx{rt: rt, pool: w.pool()}
+	for _, h := range []*hist{H, F} {
+		for _, r := range h.txs {
+			mc.hdrs = append(mc.hdrs, r.hdr)
+		}
+	}
+	pickID := func(ids []uint64, label string) uint64 { return ids[rapid.IntRange(0, len(ids)-1).Draw(rt, label)] }
+	for q := 0; q < claims; q++ {
+		t := pickID(idsH, "v2trusted")
+		S, source := H, "H"
+		if rapid.IntRange(0, 2).Draw(rt, "v2from") == 0 {
+			S, source = F, "F"
+		}
+		idsS := noLagIDs(S)
+		if len(idsS) == 0 {
+			continue
+		}
+		cc := pickID(idsS, "v2claimed")
+		bi, bj := min(t, cc), max(t, cc)
+		if bj > S.n() || S.tx(bi).hdr.BlTxID != bi-1 || S.tx(bj).hdr.BlTxID != bj-1 {
+			continue
+		}
+		hi, err := storeHdr(S, bi)
+		if err != nil {
+			c.Failf(rt, nil, "ReadTxHeader: %v", err)
+		}
+		hj, err := storeHdr(S, bj)
+		if err != nil {
+			c.Failf(rt, nil, "ReadTxHeader: %v", err)
+		}
+		base, err := S.st.DualProofV2(hi, hj)
+		if err != nil {
+			c.Failf(rt, nil, "[%s] DualProofV2(%d,%d): %v", S.name, bi, bj, err)
+		}
+		p := cloneDualV2(base)
+		nm := rapid.SampledFrom([]int{0, 1, 1, 1, 2}).Draw(rt, "v2nMut")
+		var muts []string
+		for k := 0; k < nm; k++ {
+			switch rapid.IntRange(0, 5).Draw(rt, "v2mut") {
+			case 0:
+				muts = append(muts, "src."+mc.header(p.SourceTxHeader, "v2src"))
+			case 1:
+				muts = append(muts, "tgt."+mc.header(p.TargetTxHeader, "v2tgt"))
+			case 2:
+				var k string
+				p.InclusionProof, k = mc.terms(p.InclusionProof, "v2incl")
+				muts = append(muts, "incl."+k)
+			case 3:
+				var k string
+				p.ConsistencyProof, k = mc.terms(p.ConsistencyProof, "v2cons")
+				muts = append(muts, "cons."+k)
+			case 4:
+				hd := cloneHdr(mc.hdrs[rapid.IntRange(0, len(mc.hdrs)-1).Draw(rt, "v2hdrIdx")])
+				if rapid.Bool().Draw(rt, "v2swapWhich") {
+					p.SourceTxHeader = hd
+					muts = append(muts, "swapHdr.src")
+				} else {
+					p.TargetTxHeader = hd
+					muts = append(muts, "swapHdr.tgt")
+				}
+			default:
+				// relabel: claim another id with the same proof
+				cc = uint64(rapid.IntRange(1, int(max(H.n(), F.n()))).Draw(rt, "v2relabel"))
+				muts = append(muts, "relabel")
+			}
+		}
+		// the caller of VerifyDualProofV2 proceeds as with the first proof format
+		var srcID, tgtID uint64
+		var srcAlh, tgtAlh, claimed [sha256.Size]byte
+		accepted, panicked := false, false
+		func() {
+			defer func() {
+				if recover() != nil {
+					panicked = true
+				}
+			}()
+			if t <= cc {
+				srcID, srcAlh, tgtID, tgtAlh = t, H.alh(t), cc, p.TargetTxHeader.Alh()
+				claimed = tgtAlh
+			} else {
+				srcID, srcAlh, tgtID, tgtAlh = cc, p.SourceTxHeader.Alh(), t, H.alh(t)
+				claimed = srcAlh
+			}
+			accepted = store.VerifyDualProofV2(p, srcID, tgtID, srcAlh, tgtAlh) == nil
+		}()
+		e := vk.NewEnum("TestStoreProofs/claimsV2")
+		e.Descf("n=%d t=%d c=%d base=%s(%d,%d) muts=%v", H.n(), t, cc, source, bi, bj, muts)
+		what := fmt.Sprintf("V2: client trusting (%d, Alh_H) asked for tx %d; answer built from honest %s.DualProofV2(%d,%d) + %v", t, cc, source, bi, bj, muts)
+		switch {
+		case panicked:
+			e.Label("client-panic-class(C16)")
+		case source == "H" && nm == 0 && !accepted:
+			c.Failf(rt, nil, "honest answer rejected: %s", what)
+		case accepted:
+			e.Label("accepted")
+			switch {
+			case cc <= H.n() && claimed == H.alh(cc):
+				e.Label("accepted-true-claim")
+			case cc > t && cc <= F.n() && claimed == F.alh(cc) && t <= w.shared:
+				e.Label("accepted-legit-extension-F")
+			case cc > t && !(cc <= F.n() && claimed == F.alh(cc)):
+				// a target header nobody committed (any field the tree does not pin was altered): with this proof format the
+				// target is tied to the trusted state only through its BlRoot, so this is a fresh continuation, unfalsifiable
+				e.Label("accepted-fresh-continuation(unfalsifiable)")
+			case cc == t:
+				// same id on both sides: the two headers are never compared with each other
+				if !vk.Excluded(kV2Same) {
+					c.Failf(rt, nil, "FALSE CLAIM ACCEPTED: %s; VerifyDualProofV2 with source id == target id accepted two different headers for tx %d", what, cc)
+				}
+				vk.CountExcluded(kV2Same)
+				e.Label("accepted-false-claim-same-id(K01g)")
+			default:
+				c.Failf(rt, nil, "FALSE CLAIM ACCEPTED: %s; accepted Alh(%d) is not the history's", what, cc)
+			}
+		}
+		for _, m := range muts {
+			e.Label("mut-" + mutClass(m))
+		}
+		if nm > 0 || source == "F" {
+			e.NonTrivial()
+		}
+		e.Done()
+	}
+}
+
+// probeV2Same: VerifyDualProofV2 returns early when source id == target id, after checking each header against
+// "its" Alh only: (trusted header of tx 2, any other header carrying id 2) verifies.
+func probeV2Same() (bool, string) {
+	a := &store.TxHeader{ID: 2, Ts: 10, BlTxID: 1, Version: 1, NEntries: 1}
+	b := &store.TxHeader{ID: 2, Ts: 11, BlTxID: 1, Version: 1, NEntries: 1}
+	p := &store.DualProofV2{SourceTxHeader: a, TargetTxHeader: b}
+	if a.Alh() != b.Alh() && store.VerifyDualProofV2(p, 2, 2, a.Alh(), b.Alh()) == nil {
+		return true, "VerifyDualProofV2(src hdr A, tgt hdr B, 2, 2, Alh(A), Alh(B)) = nil for two different headers with id 2"
+	}
+	return false, ""
+}
